@@ -1390,3 +1390,9 @@ def _(I, ctx, it):
     for x in _drain(I, ctx, it):
         if not out or not ctx.branch(values_eq(I, ctx, out[-1], x)): out.append(x)
     return ListIt(out)
+
+
+@model('re:^(std|alloc)::vec::from_elem$')
+def _(I, ctx, elem, n):
+    k = n.e if n.conc() else ctx.concretize(n)
+    return VecV([copy_value(elem) if isinstance(elem, (Agg, list)) else elem for _ in range(k)])
